@@ -465,6 +465,9 @@ def judgeParse (cfg : ParseCfg) (cid : String) (o : Op) (hs : HState) (out : Out
             let genuine := !implStrs.isEmpty && implStrs.all (allAccum.contains ·)
             out := out.v cid o.n "C07" "K" okCost
               ((if genuine then evTag else "") ++ s!"tree(s)={implStrs} minimal translations of repaired input {toks}: {bestStrs}")
+            -- the cost flag means the same after a recovery: the repaired input is the input (C04)
+            out := out.v cid o.n "C04" "K" okCost
+              ((if genuine then evTag else "") ++ s!"after recovery: tree(s)={implStrs} minimal translations of repaired input {toks}: {bestStrs}")
         else if !costOn then
           if oneP then
             let okOne := !hasAlt tab && implStrs.length == 1 && implStrs.all (specStrs.contains ·)
